@@ -97,7 +97,33 @@ def _gen_class(rng, lim, related_to=None):
             "ref_max": lim["ref_max_c"] if classical else lim["ref_max_m"]}
 
 
+def gen_large_case(rng):
+    """Swarm: a large class (levels with hundreds to thousands of members) and a basis
+    element one longer than the deepest level requested so far - size thresholds and
+    'exactly the new length' cases that small classes never reach."""
+    short = common.rand_perm(rng, 4)
+    n_long = rng.choice([6, 7, 7])
+    long_p = common.rand_perm(rng, n_long)
+    for _ in range(20):
+        if not RC.P.contains(tuple(long_p), tuple(short)):
+            break
+        long_p = common.rand_perm(rng, n_long)
+    items = [["c", short], ["c", long_p]] if not RC.P.contains(tuple(long_p), tuple(short)) else [["c", long_p]]
+    ops = [{"op": rng.choice(["count", "up_to_length", "enumeration"]), "cls": 0, "n": n_long - 1}]
+    extra = [{"op": "contains", "cls": 0, "perm": list(long_p)},
+             {"op": "is_subclass", "cls": 0, "other": [["c", list(long_p)]], "form": "list"},
+             {"op": "is_subclass", "cls": 0, "other": items, "form": "list"},
+             {"op": "contains", "cls": 0, "perm": common.rand_perm(rng, n_long)},
+             {"op": "contains", "cls": 0, "perm": list(range(n_long))}]
+    rng.shuffle(extra)
+    ops.extend(extra[: rng.randint(2, 4)])
+    ops.append({"op": "count", "cls": 0, "n": n_long})
+    return {"classes": [{"basis": items, "form": "list", "nmax": n_long, "ref_max": n_long}], "ops": ops}
+
+
 def gen_case(rng, tier):
+    if rng.random() < 0.004:
+        return gen_large_case(rng)
     lim = _limits(tier)
     ncls = rng.choice([1, 1, 2, 2, 3])
     classes = []
